@@ -56,3 +56,5 @@ Definition trav_simple (c : trav_case) : bool := let '(g, _, _, _) := c in simpl
 Definition trav_pwf (c : trav_case) : bool := let '(g, _, _, _) := c in pwf_b g.
 (* the hypotheses of C03_present_setup_never_executed hold for every ordinary stateful test with the global scope *)
 Definition trav_cls (c : trav_case) : bool := let '(g, _, _, _) := c in cls_all_b g.
+(* the hypotheses of C02_exit_means_done_any_workers hold of the exported graph *)
+Definition trav_ewf (c : trav_case) : bool := let '(g, _, _, _) := c in ewf_b g.
